@@ -1,6 +1,8 @@
 """C03 - taste accepts every well-formed plotfile under every option combination."""
 import itertools
 
+import numpy as np
+
 from .. import world
 from ..core import Violation, run_tool
 from . import common
@@ -28,15 +30,25 @@ def run_case(ctx):
     data_read = True
     m = world.gen_world(src, special_ok=False, max_boxes=12, scale=("manyboxes", "farcorner", "manyfields"), scale_rate=80)
     special = src.flag("special_payload", 4)
+    nanskip = False
     if special:
-        # NaN/inf payloads: only option sets that do not read the data
         world.fill_random(m, src.draw("special.seed", 0, 99999), special=True)
+        nanskip = bool(src.draw("special.nanskip", 0, 1))
+        if nanskip:
+            # the writer's running `<`/`>` comparisons skip NaN cells unless the first cell is one: tables hold
+            # the extrema of the remaining values, which is the form the data option can be asked about
+            m.nanskip = True
+            for lvd in m.data:
+                for arr in lvd:
+                    first = arr[(0,) * (arr.ndim - 1)]
+                    first[np.isnan(first)] = 1.0
+        # (otherwise NaN/inf payloads with NaN in the tables: only option sets that do not read the data)
     from amr_kitchen.taste import Taster as _T
     path, hcwd, _abs, hmode = common.history_materialise(
         ctx, m, lambda p: run_tool(ctx, lambda: bool(_T(p, nofail=True, verbose=0, binary_data=True, boxes_coordinates=True))))
     limits = [None] + list(range(m.nlev))
     for (bh, bs, bd, bc) in itertools.product((True, False), repeat=4):
-        if bd and special:
+        if bd and special and not nanskip:
             continue
         for limit in limits:
             for nofail in (False, True):
